@@ -207,7 +207,7 @@ pub fn build(g: &Grammar, thorough: bool) -> Vec<Case9> {
 pub fn run(tier: &str) -> Run {
     let mut run = Run::new("C09", tier);
     let g = crate::corpus::grammar();
-    let cases = build(&g, tier == "thorough");
+    let cases = build(&g, crate::util::wide(tier));
     let res = par_map(cases.len(), &|i| merge_and_check(&g, &cases[i].ta, &cases[i].tb), &|i| {
         println!("MACHINERY-ERROR: C09 case hangs: {}", cases[i].label);
         std::process::exit(2);
